@@ -1,5 +1,5 @@
 /- C04, copy / move / swap of whole documents, as the history interpreter AJ/Model/DH.lean performs them:
-   * `copydoc d e` (`JsonDocument d = e`, `d = e`, `d.set(e)`): `tmp := copyInto (newDocG geo so src.alloc) .root src src.root`
+   * `copydoc d e` (`JsonDocument d = e`, `d = e`, `d.set(e)`): `tmp := copyInto (newDocG geo so src.alloc maxStrLen) .root src src.root`
      — a FRESH document with the source's allocator, filled by the deep copy — replaces the destination, whose old
      content is released with `clearAll`;
    * `swapdoc d e` (`swap(d, e)`, move construction / assignment): the two `Doc` records are exchanged.
@@ -21,19 +21,19 @@ open JD (Byte Val)
 /-- `DH.newDocG g so a` (every document of `W.initG`, and the target of `copydoc`) is a well-formed empty document over
     a sound geometry: cells (`WFG … .nil`), string table, pool invariant; it is not flagged, its value is null, its
     allocator is `a`, it owns nothing and its allocator log is empty (`C06.Good`, the start of a balanced history). -/
-theorem fresh_document_wf (g : PL.Geo) (so a : Nat) (gok : PL.GeoOK g) :
-    WFG (DH.newDocG g so a) .nil ∧ StrOK (DH.newDocG g so a) ((DH.newDocG g so a).strRefs .nil) ∧
-    WF (DH.newDocG g so a) ∧ PL.Inv g (DH.newDocG g so a).pl ∧ PL.GeoOK (DH.newDocG g so a).g ∧
-    (DH.newDocG g so a).overflowed = false ∧ abs (DH.newDocG g so a) = .null ∧ (DH.newDocG g so a).alloc = a ∧
-    C06.Good (DH.newDocG g so a) .nil := by
-  have hp : PL.Inv g (DH.newDocG g so a).pl := PL.init_inv gok []
-  have hw : WFG (DH.newDocG g so a) .nil := by
+theorem fresh_document_wf (g : PL.Geo) (so a : Nat) (gok : PL.GeoOK g) (mx : Nat := 65535) :
+    WFG (DH.newDocG g so a mx) .nil ∧ StrOK (DH.newDocG g so a mx) ((DH.newDocG g so a mx).strRefs .nil) ∧
+    WF (DH.newDocG g so a mx) ∧ PL.Inv g (DH.newDocG g so a mx).pl ∧ PL.GeoOK (DH.newDocG g so a mx).g ∧
+    (DH.newDocG g so a mx).overflowed = false ∧ abs (DH.newDocG g so a mx) = .null ∧ (DH.newDocG g so a mx).alloc = a ∧
+    C06.Good (DH.newDocG g so a mx) .nil := by
+  have hp : PL.Inv g (DH.newDocG g so a mx).pl := PL.init_inv gok []
+  have hw : WFG (DH.newDocG g so a mx) .nil := by
     refine ⟨rfl, List.nodup_nil, fun i hi => (by cases hi), hp, fun i hi => (by cases hi), ?_⟩
     intro l hl e he
     rcases mem_holders.1 hl with h | ⟨j, hj, _⟩
     · subst h; cases he
     · cases hj
-  have hs : StrOK (DH.newDocG g so a) ((DH.newDocG g so a).strRefs .nil) :=
+  have hs : StrOK (DH.newDocG g so a mx) ((DH.newDocG g so a mx).strRefs .nil) :=
     ⟨List.nodup_nil, fun n hn => (by cases hn), fun n hn => (by cases hn), fun r hr => (by cases hr)⟩
   exact ⟨hw, hs, ⟨.nil, hw, hs⟩, hp, gok, rfl, rfl, rfl, C06.fresh_good rfl rfl rfl rfl⟩
 
@@ -41,17 +41,19 @@ theorem fresh_document_wf (g : PL.Geo) (so a : Nat) (gok : PL.GeoOK g) :
 
 /-- the temporary document of `copydoc`: a fresh document over geometry `g` (string overhead `so`, allocator `a` — the
     interpreter passes the source's), filled with a deep copy of the source's root -/
-def docCopy (g : PL.Geo) (so a : Nat) (src : Doc) : Doc := copyInto (DH.newDocG g so a) .root src src.root
+def docCopy (g : PL.Geo) (so a : Nat) (src : Doc) (mx : Nat := 65535) : Doc :=
+  copyInto (DH.newDocG g so a mx) .root src src.root
 
 /-- what `copydoc di ei` stores at `di` and what it releases -/
-theorem copydoc_is_docCopy (g : PL.Geo) (so : Nat) (src : Doc) :
-    docCopy g so src.alloc src = copyInto (DH.newDocG g so src.alloc) .root src src.root := rfl
+theorem copydoc_is_docCopy (g : PL.Geo) (so : Nat) (src : Doc) (mx : Nat := 65535) :
+    docCopy g so src.alloc src mx = copyInto (DH.newDocG g so src.alloc mx) .root src src.root := rfl
 
-/-- the copy is a document of the allocator, string overhead and geometry it was created with (whether or not the copy
+/-- the copy is a document of the allocator, string overhead, geometry and string-length limit it was created with (whether or not the copy
     succeeds); the interpreter creates it with the SOURCE's allocator id -/
-theorem copy_document_allocator (g : PL.Geo) (so a : Nat) (src : Doc) :
-    (docCopy g so a src).alloc = a ∧ (docCopy g so a src).strOverhead = so ∧ (docCopy g so a src).g = g :=
-  sameId_copyInto (DH.newDocG g so a) .root src src.root
+theorem copy_document_allocator (g : PL.Geo) (so a : Nat) (src : Doc) (mx : Nat := 65535) :
+    (docCopy g so a src mx).alloc = a ∧ (docCopy g so a src mx).strOverhead = so ∧ (docCopy g so a src mx).g = g ∧
+    (docCopy g so a src mx).maxStrLen = mx :=
+  sameId_copyInto (DH.newDocG g so a mx) .root src src.root
 
 /-- **Document copy, success.** `src` is a well-formed document (layout `Fs`) without an object that repeats a key; the
     copy is built in a fresh document over any sound geometry `g`. If the copy is not flagged `overflowed` (no allocation
@@ -66,19 +68,19 @@ theorem copy_document_allocator (g : PL.Geo) (so a : Nat) (src : Doc) :
     * the OLD destination `old` (any document) is released with `clearAll`: one deallocation per block it owned (pools with
       a block, heap pool table, string nodes), no other allocator traffic, nothing left. -/
 theorem copy_document_refines {src : Doc} {Fs : Forest} {g : PL.Geo} (so a : Nat) (gok : PL.GeoOK g)
-    (ws : WFG src Fs) (hnd : NoDupKeys (src.toVal src.root))
-    (hok : (docCopy g so a src).overflowed = false) (old : Doc) :
-    WF (docCopy g so a src) ∧
-    WFG (docCopy g so a src) (copyLayout (DH.newDocG g so a) .nil .root src src.root) ∧
-    StrOK (docCopy g so a src)
-      ((docCopy g so a src).strRefs (copyLayout (DH.newDocG g so a) .nil .root src src.root)) ∧
-    (docCopy g so a src).g = g ∧
-    abs (docCopy g so a src) = copyVal (abs src) ∧
-    (DblCanon (abs src) → abs (docCopy g so a src) = abs src) ∧
+    (ws : WFG src Fs) (hnd : NoDupKeys (src.toVal src.root)) {mx : Nat}
+    (hok : (docCopy g so a src mx).overflowed = false) (old : Doc) :
+    WF (docCopy g so a src mx) ∧
+    WFG (docCopy g so a src mx) (copyLayout (DH.newDocG g so a mx) .nil .root src src.root) ∧
+    StrOK (docCopy g so a src mx)
+      ((docCopy g so a src mx).strRefs (copyLayout (DH.newDocG g so a mx) .nil .root src src.root)) ∧
+    (docCopy g so a src mx).g = g ∧
+    abs (docCopy g so a src mx) = copyVal (abs src) ∧
+    (DblCanon (abs src) → abs (docCopy g so a src mx) = abs src) ∧
     (old.clearAll.pl.log = List.replicate (PL.blocks old.pl + old.strings.length) "D" ++ old.pl.log ∧
       old.clearAll.pl.calls = old.pl.calls ∧ PL.blocks old.clearAll.pl = 0 ∧ old.clearAll.strings = [] ∧
       old.clearAll.pl.pools = [] ∧ old.clearAll.pl.free = []) := by
-  obtain ⟨hw, hs, _, _, _, _, _, _, _⟩ := fresh_document_wf g so a gok
+  obtain ⟨hw, hs, _, _, _, _, _, _, _⟩ := fresh_document_wf g so a gok mx
   obtain ⟨a1, a2, a3, a4, _⟩ := copyInto_refines (l := .root) (ls := .root) hw hs gok trivial ws trivial hnd hok
   refine ⟨⟨_, a1, a2⟩, a1, a2, a3, a4, fun hc => ?_, C06.clearAll_releases_all_owned old⟩
   have := copyVal_of_canon _ hc
@@ -111,13 +113,13 @@ theorem documents_are_independent (a b : Doc) (f : Doc → Doc) :
     (fun (_ : Doc) => abs b) (f a) = abs b ∧ (fun (_ : Doc) => abs a) (f b) = abs a := ⟨rfl, rfl⟩
 
 /-- the interpreter's `copydoc r r2` step stores exactly `docCopy` (built with the SOURCE's allocator id, the world's
-    geometry and string overhead) at index `r`, after moving the allocator logs into the world log (`flush`; the log is the
+    geometry, string overhead and string-length limit) at index `r`, after moving the allocator logs into the world log (`flush`; the log is the
     ledger, not part of the document state) -/
 theorem copydoc_step (w : DH.W) (r r2 : String) :
     (DH.step w ["copydoc", r, r2]).2.docs =
       w.flush.docs.set! r.toNat!
-        { docCopy w.geo w.strOverhead (w.docs[r2.toNat!]!).alloc (w.docs[r2.toNat!]!) with
-          pl := { (docCopy w.geo w.strOverhead (w.docs[r2.toNat!]!).alloc (w.docs[r2.toNat!]!)).pl with log := [] } } := by
+        { docCopy w.geo w.strOverhead (w.docs[r2.toNat!]!).alloc (w.docs[r2.toNat!]!) w.maxStrLen with
+          pl := { (docCopy w.geo w.strOverhead (w.docs[r2.toNat!]!).alloc (w.docs[r2.toNat!]!) w.maxStrLen).pl with log := [] } } := by
   rfl
 
 /-! ## B2. `copydoc`, whatever fails -/
@@ -127,11 +129,11 @@ theorem copydoc_step (w : DH.W) (r r2 : String) :
     `C05.partial_arr`, `partial_obj`, …) of the complete copy; and it is flagged `overflowed` EXACTLY WHEN it is
     incomplete. -/
 theorem copy_document_fail_safe {src : Doc} {Fs : Forest} {g : PL.Geo} (so a : Nat) (gok : PL.GeoOK g)
-    (ws : WFG src Fs) (hnd : NoDupKeys (src.toVal src.root)) :
-    WF (docCopy g so a src) ∧ (docCopy g so a src).g = g ∧
-    PartialCopy (abs (docCopy g so a src)) (copyVal (abs src)) ∧
-    ((docCopy g so a src).overflowed = true ↔ abs (docCopy g so a src) ≠ copyVal (abs src)) := by
-  obtain ⟨hw, hs, _, _, _, hov, _, _, _⟩ := fresh_document_wf g so a gok
+    (ws : WFG src Fs) (hnd : NoDupKeys (src.toVal src.root)) (mx : Nat := 65535) :
+    WF (docCopy g so a src mx) ∧ (docCopy g so a src mx).g = g ∧
+    PartialCopy (abs (docCopy g so a src mx)) (copyVal (abs src)) ∧
+    ((docCopy g so a src mx).overflowed = true ↔ abs (docCopy g so a src mx) ≠ copyVal (abs src)) := by
+  obtain ⟨hw, hs, _, _, _, hov, _, _, _⟩ := fresh_document_wf g so a gok mx
   obtain ⟨a1, a2, a3, _, a5, _⟩ := C05.copy_fail_safe (l := .root) (ls := .root) hw hs gok trivial ws trivial hnd
   exact ⟨⟨_, a1, a2⟩, a3, a5,
     C05.copy_flag_iff_incomplete (l := .root) (ls := .root) hw hs gok trivial ws trivial hnd hov⟩
@@ -207,6 +209,15 @@ example : (docCopy g0 15 1 e4).overflowed = false := by
     have hv : abs (docCopy g0 15 1 e4) = .arr [.str hi] := valEq_sound _ _ (by decide +kernel)
     rw [hv, show abs e4 = .arr [.str hi] from e4_val]
     exact (valEq_sound _ _ (by decide +kernel)).symm
+
+/-- the string-length limit of the world applies to the copy: with the limit 1 the 2-byte string of `["hi"]` is refused,
+    the copy is flagged and (by `copy_document_fail_safe`) well-formed and incomplete; no block was requested for it -/
+example : (docCopy g0 15 1 e4 1).overflowed = true ∧ WF (docCopy g0 15 1 e4 1) ∧
+    abs (docCopy g0 15 1 e4 1) ≠ copyVal (abs e4) ∧ (docCopy g0 15 1 e4 1).strings = [] ∧
+    (docCopy g0 15 1 e4 1).maxStrLen = 1 := by
+  obtain ⟨a, _, _, iff⟩ := copy_document_fail_safe (g := g0) 15 1 gok w4 e4_root_nodup 1
+  have h : (docCopy g0 15 1 e4 1).overflowed = true := by decide +kernel
+  exact ⟨h, a, iff.mp h, by decide +kernel, (copy_document_allocator g0 15 1 e4 1).2.2.2⟩
 
 /-- `copy_document_allocator`: `copydoc 0 1` gives document 0 a copy that lives in document 1's allocator -/
 example : (docCopy g0 15 e4.alloc e4).alloc = e4.alloc := (copy_document_allocator g0 15 e4.alloc e4).1
